@@ -1023,6 +1023,88 @@ Proof.
       * rewrite (verify_lookup_nonblank _ _ _ SP), (get_meta_invalid _ _ _ V) in E. discriminate.
 Qed.
 
+(* --- a source that offers no acceptable name --- *)
+Lemma parse_valid f n : parse_plugin_name f = Some n -> valid_name n = true.
+Proof.
+  unfold parse_plugin_name. destruct (cut_prefix bin_prefix f) as [m|]; [|discriminate].
+  destruct (valid_name m) eqn:V; [|discriminate]. intros E. inversion E. subst. exact V.
+Qed.
+
+Lemma cand_names_valid es n : In n (cand_names es) -> valid_name n = true.
+Proof.
+  unfold cand_names. intros H. apply in_flat_map in H as ([c nd] & _ & H). cbn in H.
+  destruct nd as [|x m]; [contradiction|].
+  destruct (parse_plugin_name c) as [k|] eqn:P; [|contradiction].
+  destruct H as [<- | []]. eapply parse_valid; eauto.
+Qed.
+
+Lemma candidates_valid w s n : In n (candidates w s) -> valid_name n = true.
+Proof.
+  unfold candidates. destruct (stat w s) as [| |[|x m]]; try contradiction.
+  - apply cand_names_valid.
+  - destruct (parse_plugin_name (base_name s)) as [k|] eqn:P; [|contradiction].
+    intros [<- | []]. eapply parse_valid; eauto.
+Qed.
+
+Lemma flat_map_nil {A B} (f : A -> list B) l :
+  flat_map f l = [] -> forall x, In x l -> f x = [].
+Proof.
+  induction l as [|a l IH]; cbn; [tauto|]. intros H x [<- | Hx].
+  - now apply app_eq_nil in H.
+  - apply IH; [now apply app_eq_nil in H | exact Hx].
+Qed.
+
+Lemma scan_no_candidate s es : forall st,
+  cand_names es = [] -> fold_left (scan_step s) es (Some st) = Some st.
+Proof.
+  induction es as [|[c nd] es IH]; intros st H; [reflexivity|].
+  unfold cand_names in H. cbn [flat_map] in H. apply app_eq_nil in H as (H1 & H2).
+  cbn [fold_left scan_step snd fst]. cbn in H1.
+  destruct nd as [|x m]; [now apply IH|].
+  destruct (parse_plugin_name c); [discriminate | now apply IH].
+Qed.
+
+(* Install fails; the source is stat'ed (and read, if a directory); no process
+   runs and the file system is the one it started from *)
+Lemma install_no_candidate w root s ow :
+  candidates w s = [] ->
+  let r := install w root s ow in
+  r_err r <> ENone /\ r_fs r = w
+  /\ Forall (fun e => e = EStat s \/ e = EReadDir s) (r_log r).
+Proof.
+  unfold install, candidates. intros C.
+  assert (F1 : Forall (fun e => e = EStat s \/ e = EReadDir s) [EStat s]) by (constructor; auto).
+  assert (F2 : Forall (fun e => e = EStat s \/ e = EReadDir s) [EStat s; EReadDir s])
+    by (constructor; auto).
+  destruct (String.eqb s ""); [cbn; split; [discriminate | split; [reflexivity | constructor]]|].
+  destruct (stat w s) as [| |[|x m]].
+  - cbn. split; [discriminate | split; [reflexivity | exact F1]].
+  - cbn. split; [discriminate | split; [reflexivity | exact F1]].
+  - unfold parse_dir. fold (cand_names (children w s)) in C.
+    rewrite (scan_no_candidate s _ scan0 C). cbn.
+    split; [discriminate | split; [reflexivity | exact F2]].
+  - destruct (parse_plugin_name (base_name s)); [discriminate|].
+    cbn. split; [discriminate | split; [reflexivity | exact F1]].
+Qed.
+
+Lemma quiet_log s l :
+  Forall (fun e => e = EStat s \/ e = EReadDir s) l ->
+  ran_paths l = [] /\ existsb mutating l = false.
+Proof.
+  induction 1 as [|e l [-> | ->] _ [IH1 IH2]]; cbn; auto.
+Qed.
+
+Lemma no_candidate_no_effects i s ow :
+  i_op i = OInstall s ow -> candidates (world i) s = [] ->
+  no_effects (model i) = true /\ o_err (model i) <> ENone.
+Proof.
+  intros O C. destruct (install_no_candidate (world i) (i_root i) s ow C) as (E & F & L).
+  assert (EX : exec_op i = install (world i) (i_root i) s ow) by (unfold exec_op; now rewrite O).
+  rewrite <- EX in E, F, L. split; [|exact E].
+  destruct (quiet_log _ _ L) as (R & M).
+  unfold no_effects, model. cbn. now rewrite R, M.
+Qed.
+
 Lemma install_meets_oracle i s ow :
   is_abs (i_root i) = true -> s <> "/" -> i_op i = OInstall s ow ->
   install_ok i (model i) s = true.
@@ -1030,8 +1112,10 @@ Proof.
   intros A NS O.
   pose proof (install_contained (world i) (i_root i) s ow A NS) as IC. cbn zeta in IC.
   assert (EX : exec_op i = install (world i) (i_root i) s ow) by (unfold exec_op; now rewrite O).
-  rewrite <- EX in IC. unfold install_ok.
-  change (o_err (model i)) with (r_err (exec_op i)).
+  rewrite <- EX in IC.
+  assert (SOME : install_ok_some i (model i) s = true).
+  { unfold install_ok_some.
+    change (o_err (model i)) with (r_err (exec_op i)).
   destruct IC as [(S & N) | (n & Ic & V & N & S)].
   - rewrite (contained_model i _ _ S). destruct (r_err (exec_op i)); auto; congruence.
   - assert (X : existsb (fun n0 => safe_name n0
@@ -1039,7 +1123,10 @@ Proof.
               (candidates (world i) s) = true).
     { apply existsb_exists. exists n. split; [exact Ic|].
       now rewrite (valid_name_safe _ V), (contained_model i _ _ S). }
-    rewrite X. destruct (r_err (exec_op i)); auto using orb_true_r; congruence.
+    rewrite X. destruct (r_err (exec_op i)); auto using orb_true_r; congruence. }
+  unfold install_ok. destruct (candidates (world i) s) as [|c0 cs] eqn:CS; [|exact SOME].
+  destruct (no_candidate_no_effects i s ow O CS) as (NE & EN). rewrite NE.
+  destruct (o_err (model i)); cbn; congruence || reflexivity.
 Qed.
 
 Lemma model_spec_ok i : wf i = true -> spec_ok i (model i) = true.
@@ -1163,12 +1250,5 @@ Proof.
   rewrite (H n Ic) in V. discriminate.
 Qed.
 
-(* Install executes the source file before the derived name is examined: the
-   part of "no process execution" that does not hold for Install. *)
-Definition witness_fs : fs :=
-  [("/s", NDir); ("/s/notation-..", NFile true (Some ("..", 1%N))); ("/p", NDir); ("/p/r", NDir)].
-
-Lemma install_runs_source_witness :
-  let r := install witness_fs "/p/r" "/s/notation-.." true in
-  r_err r = EInvalid /\ In (EExec "/s/notation-.." true) (r_log r) /\ r_fs r = witness_fs.
-Proof. vm_compute. repeat split; auto. Qed.
+(* (the witness that Install ran the source before it examined the derived name
+   is about the code before /repo 30cc14e: see install_v0 in C16_Audit.v) *)
